@@ -186,6 +186,7 @@ pub fn judge(resolve: &Resolve, world: WorldId, decls: &Value, encoding: wit_com
     // ---- imports
     let mut imap: BTreeMap<(String, String), Sig> = BTreeMap::new();
     let mut unjudged_imports = 0u64;
+    let mut pending: Vec<((String, String), Sig, String)> = vec![];
     for d in &imports {
         let m = d.module.clone().unwrap_or_default();
         let key = (m.clone(), d.name.clone());
@@ -222,12 +223,11 @@ pub fn judge(resolve: &Resolve, world: WorldId, decls: &Value, encoding: wit_com
             }
         };
         if known.is_none() && !is_root_builtin(&m, &d.name) {
-            issues.push(issue(
-                "import-unoffered",
-                &format!("{m}::{}", d.name),
-                format!("generated import `{m}` `{}` ({}) is not one the world offers", d.name, d.at),
-            ));
-            continue; // would only make the encoder repeat this
+            // not in our table: let the real encoder decide, one import at a time (below)
+            if !pending.iter().any(|(k, _, _): &((String, String), Sig, String)| *k == key) {
+                pending.push((key, sig, d.at.clone()));
+            }
+            continue;
         }
         if let Some(prev) = imap.get(&key) {
             if *prev != sig {
@@ -245,6 +245,42 @@ pub fn judge(resolve: &Resolve, world: WorldId, decls: &Value, encoding: wit_com
     // ---- synthetic module through the real encoder
     let imp_list: Vec<(String, String, Sig)> = imap.iter().map(|((m, n), s)| (m.clone(), n.clone(), s.clone())).collect();
     let exp_list: Vec<(String, Sig)> = emap.iter().map(|(n, s)| (n.clone(), s.clone())).collect();
+    let try_encode = |imps: &[(String, String, Sig)]| -> Result<usize, String> {
+        let bytes = build_module(resolve, world, imps, &exp_list, encoding).map_err(|e| format!("{e:#}"))?;
+        let r = vkit::catch(std::panic::AssertUnwindSafe(|| -> anyhow::Result<Vec<u8>> {
+            let mut enc = wit_component::ComponentEncoder::default();
+            enc.validate(true);
+            enc.module(&bytes)?;
+            enc.encode()
+        }));
+        match r {
+            Ok(Ok(c)) => Ok(c.len()),
+            Ok(Err(e)) => Err(format!("{e:#}")),
+            Err((m, l)) => Err(format!("encoder panic: {m} at {l}")),
+        }
+    };
+    let mut accepted_unknown = 0u64;
+    for ((m, n), sig, at) in &pending {
+        let one = vec![(m.clone(), n.clone(), sig.clone())];
+        match try_encode(&one) {
+            Ok(_) => {
+                accepted_unknown += 1;
+                unsure.push(json!({"why": format!("import `{m}` `{n}` is not in the expected-name table but the encoder accepts it")}));
+            }
+            Err(e) => {
+                // only blame the import if the same module without it is fine
+                if try_encode(&[]).is_ok() || e.contains(n.as_str()) || e.contains("import") {
+                    issues.push(issue(
+                        "import-unoffered",
+                        &format!("{m}::{n}"),
+                        format!("generated import `{m}` `{n}` ({at}) is not one the world offers; encoder: {}", e.chars().take(300).collect::<String>()),
+                    ));
+                } else {
+                    unsure.push(json!({"why": format!("import `{m}` `{n}` could not be judged in isolation: {}", e.chars().take(160).collect::<String>())}));
+                }
+            }
+        }
+    }
     let encoder = match build_module(resolve, world, &imp_list, &exp_list, encoding) {
         Err(e) => json!({"ok": false, "stage": "build", "error": format!("{e:#}")}),
         Ok(bytes) => {
@@ -282,7 +318,7 @@ pub fn judge(resolve: &Resolve, world: WorldId, decls: &Value, encoding: wit_com
         "encoder": encoder,
         "counts": {
             "imports": imports.len(), "exports": exports.len(), "sig_checked": sig_checked, "sig_unread": sig_unread,
-            "distinct_imports": imap.len(), "unjudged_imports": unjudged_imports,
+            "distinct_imports": imap.len(), "unjudged_imports": unjudged_imports, "accepted_unknown_imports": accepted_unknown,
             "required_exports": exp.required.len(), "expected_export_names": exp.exports.len(), "expected_import_names": exp.imports.len(),
         },
     })
